@@ -200,6 +200,7 @@ def sym_rollup(ctx, cfg):
     world.rebind(S, np=symnp, pd=sympd, pa=vfs.pa_stub)
     vfs.reset()
     modcol = bool(cfg.get("modcol"))
+    base_level = cfg.get("level", "psm")
     rows = []  # (id, is_target, pep, score, mod)
     sizes = cfg["sizes"]  # per source run: (n_targets, n_decoys)
     for f, (nt, nd) in enumerate(sizes):
@@ -215,16 +216,24 @@ def sym_rollup(ctx, cfg):
                 cols["ModifiedPeptide"] = [SNum(z) for z in zm]
             cols.update({"score": [SNum(z) for z in zs], "q-value": [0.5] * n, "posterior_error_prob": [0.5] * n, "proteinIds": ["prot_" + x for x in ids]})
             if n:
-                vfs.put(vfs.VPath("/vfs/src/run%d.%s.psms" % (f, kind)), sympd.DataFrame(cols))
+                vfs.put(vfs.VPath("/vfs/src/run%d.%s.%ss" % (f, kind, base_level)), sympd.DataFrame(cols))
             rows += [(ids[i], kind == "targets", zp[i], zs[i], zm[i]) for i in range(n)]
+    dst = "/vfs/src" if cfg.get("same_dir") else "/vfs/dst"
+    if cfg.get("stale_outputs"):
+        # results of an EARLIER rollup over other inputs, left in the directory the tool reads from
+        for kind in ("targets", "decoys"):
+            st = {"psm_id": ["stale_%s_0" % kind], "peptide": [SNum(z3.Int("stale_pep_%s" % kind))], "score": [SNum(z3.Real("stale_score_%s" % kind))], "q_value": [0.5], "posterior_error_prob": [0.5],
+                  "proteinIds": ["prot_stale"]}
+            vfs.put(vfs.VPath("%s/rollup.%s.%ss" % (dst, kind, base_level)), sympd.DataFrame(st))
     conf = _Cfg()
-    conf.level, conf.src_dir, conf.dest_dir, conf.file_root = "psm", vfs.VPath("/vfs/src"), vfs.VPath("/vfs/dst"), "rollup"
+    conf.level, conf.src_dir, conf.dest_dir, conf.file_root = base_level, vfs.VPath("/vfs/src"), vfs.VPath(dst), "rollup"
     conf.qvalue_algorithm, conf.peps_algorithm = "tdc", "qvality"
     pr = conflib.PepRecorder()
     R.peps_from_scores = pr
     real_tdc = Q.__dict__["tdc"]
     Q.__dict__["tdc"] = tdc_by_spec(ctx)
-    inputs = dict(rows=[dict(id=r[0], target=r[1], peptide=SNum(r[2]), score=SNum(r[3]), mod=SNum(r[4])) for r in rows], sizes=sizes, modcol=modcol)
+    inputs = dict(rows=[dict(id=r[0], target=r[1], peptide=SNum(r[2]), score=SNum(r[3]), mod=SNum(r[4])) for r in rows], sizes=sizes, modcol=modcol, level=base_level,
+                  same_dir=bool(cfg.get("same_dir")), stale_outputs=bool(cfg.get("stale_outputs")))
     try:
         R.do_rollup(conf)
     except Unsupported:
@@ -239,7 +248,7 @@ def sym_rollup(ctx, cfg):
     idx = {r[0]: k for k, r in enumerate(rows)}
     s = dict(score=[r[3] for r in rows], pep=[r[2] for r in rows], scan=[r[2] for r in rows], mass=[r[2] for r in rows], mod=[r[4] for r in rows])
     for fname, level, col in ([("modified_peptides", "modifiedpeptides", "modified_peptide")] if modcol else []) + [("peptides", "peptides", "peptide")]:
-        tf, dfile = vfs.get("/vfs/dst/rollup.targets.%s" % fname), vfs.get("/vfs/dst/rollup.decoys.%s" % fname)
+        tf, dfile = vfs.get("%s/rollup.targets.%s" % (dst, fname)), vfs.get("%s/rollup.decoys.%s" % (dst, fname))
         props.append(("%s_rollup_files_written" % fname, z3.BoolVal(tf is not None and dfile is not None)))
         if tf is None or dfile is None:
             continue
@@ -376,8 +385,14 @@ def check_outputs(df, scores, outdir, prefix, dedup, rollup, decoys, extra, high
                 i = ids.index(r["PSMId"])
                 if lab[i] != is_t:
                     return "%s: PSM %s has target flag %s" % (os.path.basename(path), r["PSMId"], lab[i])
-                if str(r["peptide"]) != str(df["Peptide"][i]) or str(r["proteinIds"]) != str(df["Proteins"][i]) or abs(float(r["score"]) - scores[i]) > 1e-9 * max(1, abs(scores[i])):
+                try:
+                    sc_val, q_val = float(r["score"]), float(r["q-value"])
+                except (TypeError, ValueError):
+                    return "%s: row of %s: the score / q-value columns do not hold numbers: %s" % (os.path.basename(path), r["PSMId"], dict(r))
+                if str(r["peptide"]) != str(df["Peptide"][i]) or str(r["proteinIds"]) != str(df["Proteins"][i]) or abs(sc_val - scores[i]) > 1e-9 * max(1, abs(scores[i])):
                     return "%s: row of %s does not carry that PSM's peptide/proteins/score: %s" % (os.path.basename(path), r["PSMId"], dict(r))
+                if extra and level in ("psms", "peptides", "modifiedpeptides") and "ModifiedPeptide" in t.columns and str(r["ModifiedPeptide"]) != str(df["ModifiedPeptide"][i]):
+                    return "%s: row of %s: level column ModifiedPeptide holds %r, the input PSM has %r" % (os.path.basename(path), r["PSMId"], r["ModifiedPeptide"], df["ModifiedPeptide"][i])
                 if prev is not None and not better(scores[prev], scores[i]):
                     return "%s not sorted by score" % os.path.basename(path)
                 prev = i
@@ -494,6 +509,7 @@ def real_rollup(cfg, inp):
     R = __import__("importlib").import_module("mokapot.brew_rollup")
     rows = inp["rows"]
     modcol = bool(inp.get("modcol"))
+    base_level = inp.get("level", "psm")
     with tempfile.TemporaryDirectory(prefix="verif_c03r_") as d:
         src, dst = Path(d) / "src", Path(d) / "dst"
         src.mkdir()
@@ -506,9 +522,15 @@ def real_rollup(cfg, inp):
                     if modcol:
                         cols["ModifiedPeptide"] = ["SEQ%d" % int(r["mod"]) for r in rs]
                     cols.update({"score": [float(r["score"]) for r in rs], "q-value": [0.5] * len(rs), "posterior_error_prob": [0.5] * len(rs), "proteinIds": ["prot_" + r["id"] for r in rs]})
-                    pd.DataFrame(cols).to_csv(src / ("run%d.%s.psms" % (f, kind)), sep="\t", index=False)
+                    pd.DataFrame(cols).to_csv(src / ("run%d.%s.%ss" % (f, kind, base_level)), sep="\t", index=False)
+        if inp.get("same_dir"):
+            dst = src
+        if inp.get("stale_outputs"):
+            for kind in ("targets", "decoys"):
+                pd.DataFrame({"psm_id": ["stale_%s_0" % kind], "peptide": ["SEQ999"], "score": [1000.0], "q_value": [0.5], "posterior_error_prob": [0.5], "proteinIds": ["prot_stale"]}).to_csv(
+                    dst / ("rollup.%s.%ss" % (kind, base_level)), sep="\t", index=False)
         conf = _Cfg()
-        conf.level, conf.src_dir, conf.dest_dir, conf.file_root = "psm", src, dst, "rollup"
+        conf.level, conf.src_dir, conf.dest_dir, conf.file_root = base_level, src, dst, "rollup"
         conf.qvalue_algorithm, conf.peps_algorithm = "tdc", "qvality"
         old = R.peps_from_scores
         R.peps_from_scores = lambda s, t, a="qvality": np.full(len(s), 0.5)
